@@ -238,6 +238,11 @@ func corr(seed uint64, n int, nfile int, kinds []string, repo string) {
 		}
 		nh++
 		add(h.Data, "harvest")
+		if perType[h.Type] <= 2 {
+			for _, m := range bx.TailMutants(h.Data) {
+				add(m, "harvest-tail")
+			}
+		}
 		for _, m := range bx.Mutate(r, h.Data, 3) {
 			add(m, "harvest-mut")
 		}
@@ -256,6 +261,14 @@ func corr(seed uint64, n int, nfile int, kinds []string, repo string) {
 					}
 				}
 			}
+		}
+	}
+	// one well-formed leaf of every generated kind with its end-of-body family
+	for _, k := range bx.GenKinds {
+		b := bx.GenLeaf(r, k)
+		add(b, "gen")
+		for _, m := range bx.TailMutants(b) {
+			add(m, "gen-tail")
 		}
 	}
 	for i := 0; len(cases) < n; i++ {
@@ -363,6 +376,11 @@ func search(seed uint64, n int, dc string, repo string, mode string, kinds strin
 			continue
 		}
 		cases = append(cases, cs{h.Data, "harvest"})
+		if perType[h.Type] <= 2 && len(h.Data) <= 4000 {
+			for _, m := range bx.TailMutants(h.Data) {
+				cases = append(cases, cs{m, "mut"})
+			}
+		}
 		if len(h.Data) <= 4000 {
 			k := 2 + n/2000
 			for _, m := range bx.Mutate(r, h.Data, k) {
@@ -395,6 +413,13 @@ func search(seed uint64, n int, dc string, repo string, mode string, kinds strin
 	}
 	for i := 0; i < 40+n/100; i++ {
 		cases = append(cases, cs{bx.GenEsds(r), "gen"})
+	}
+	for _, k := range bx.GenKinds {
+		b := bx.GenLeaf(r, k)
+		cases = append(cases, cs{b, "gen"})
+		for _, m := range bx.TailMutants(b) {
+			cases = append(cases, cs{m, "gen-mut"})
+		}
 	}
 	// generated boxes and trees always get a share of the budget (at least n/4 of them)
 	for i, quota := 0, len(cases)+n/4; len(cases) < n || len(cases) < quota; i++ {
